@@ -598,9 +598,9 @@ pub fn driver_set(prop: Prop, thorough: bool) -> Vec<Planned> {
             // NaN observations (count-only oracle: termination and conservation)
             shapes.push(("E9 O(NaN)O|CCC", Path::Direct, vec![vec![Observe(f64::NAN), Observe(d)], col(3)], Mode::U));
             shapes.push(("E10 Batch(NaN)|CC", Path::Direct, vec![vec![Batch(vec![f64::NAN, a])], col(2)], Mode::U));
+            // a flusher whose sum update can lose the race four times in a row
+            shapes.push(("E11 Batch|OOOO", Path::Direct, vec![vec![Batch(vec![a])], o(&[b, c, d, f])], Mode::U));
             if thorough {
-                // a flusher whose sum update can lose the race four times in a row
-                shapes.push(("E11 Batch|OOOO", Path::Direct, vec![vec![Batch(vec![a])], o(&[b, c, d, f])], Mode::U));
                 shapes.push(("E7 OO|OO|CCC", Path::Direct, vec![o(&[a, d]), o(&[b, f]), col(3)], Mode::B(3)));
                 shapes.push(("E8 O|C|C|C", Path::Direct, vec![o(&[a]), col(1), col(1), col(1)], Mode::B(3)));
             }
